@@ -12,6 +12,7 @@ from typing import Any
 from .._change import CallArg
 from .._change import Delete
 from ..syntax_warnings import InlineSnapshotSyntaxWarning
+from .._unmanaged import Unmanaged
 from .adapter import Adapter
 from .adapter import Item
 from .adapter import adapter_map
@@ -174,7 +175,12 @@ class GenericCallAdapter(Adapter):
         # keyword arguments
         result_kwargs = {}
         for kw in old_node.keywords:
-            if kw.arg not in new_kwargs or new_kwargs[kw.arg].is_default:
+            if kw.arg not in new_kwargs or (
+                new_kwargs[kw.arg].is_default
+                # the user controls this argument (Is(...)), its value is only
+                # by chance the default at the moment
+                and not isinstance(self.argument(old_value, kw.arg), Unmanaged)
+            ):
                 # delete entries
                 yield Delete(
                     (
